@@ -408,12 +408,45 @@ func c05ParsePipeline(c *Ctx) {
 			}
 		})
 	}
+	// errsTest: the condition asks whether errors were recorded — len(p.errs) compared with 0, possibly negated, or
+	// a one-line predicate on the error list (`func (e ParseErrors) empty() bool { return len(e) == 0 }`)
+	var errsTest func(cond ssa.Value) (isTest, presentOnTrue bool)
+	errsTest = func(cond ssa.Value) (bool, bool) {
+		switch x := cond.(type) {
+		case *ssa.UnOp:
+			if x.Op == token.NOT {
+				is, on := errsTest(x.X)
+				return is, !on
+			}
+		case *ssa.BinOp:
+			if s := condStr(x); strings.Contains(s, "len(") && strings.Contains(s, ".errs") {
+				return true, x.Op != token.EQL
+			}
+		case *ssa.Call:
+			g := x.Call.StaticCallee()
+			if g == nil || g.Pkg == nil || g.Pkg != ppOuter.Pkg || len(g.Blocks) != 1 || len(x.Call.Args) != 1 || !strings.HasSuffix(path(x.Call.Args[0]), ".errs") {
+				return false, false
+			}
+			if ret, ok := g.Blocks[0].Instrs[len(g.Blocks[0].Instrs)-1].(*ssa.Return); ok && len(ret.Results) == 1 {
+				if bo, ok := ret.Results[0].(*ssa.BinOp); ok {
+					if _, isLen := lenOf(bo.X); isLen || strings.HasPrefix(path(bo.X), "len(") {
+						if k, isK := constInt(bo.Y); isK && k == 0 {
+							return true, bo.Op != token.EQL
+						}
+					}
+				}
+			}
+		}
+		return false, false
+	}
+	presentOnTrue := true
 	for _, g := range cands {
 		for _, b := range g.Blocks {
 			if iff, ok := b.Instrs[len(b.Instrs)-1].(*ssa.If); ok && test == nil {
-				if s := condStr(iff.Cond); strings.Contains(s, "len(") && strings.Contains(s, ".errs") {
+				if is, on := errsTest(iff.Cond); is {
 					test = b
 					pp = g
+					presentOnTrue = on
 				}
 			}
 		}
@@ -443,15 +476,19 @@ func c05ParsePipeline(c *Ctx) {
 		r.Fn(relName(pp))
 	}
 	// which arm is "errors present": len(errs) != 0 / > 0 → true arm; len(errs) == 0 → false arm
+	if test == nil {
+		r.Undecided("PARSE-RESULT", "ParsePipeline's test of the recorded errors", t.Pos(ppOuter.Pos()), "no branch on len(p.errs) (or a predicate of the error list) found in ParsePipeline or the functions it hands its result on from")
+		return
+	}
 	errArm, okArm := test.Succs[0], test.Succs[1]
-	if bo, ok := test.Instrs[len(test.Instrs)-1].(*ssa.If).Cond.(*ssa.BinOp); ok && bo.Op == token.EQL {
+	if !presentOnTrue {
 		errArm, okArm = test.Succs[1], test.Succs[0]
 	}
 	conv := false
 	var convInline *ssa.Call
 	allInstrs(pp, func(in ssa.Instruction) {
 		if call, ok := in.(*ssa.Call); ok && call.Call.StaticCallee() != nil && (errArm.Dominates(call.Block()) || errArm == call.Block()) {
-			switch call.Call.StaticCallee().Name() {
+			switch fnName(call.Call.StaticCallee()) {
 			case "conv2PlError":
 				conv = true
 			case "NewErr": // the conversion written out: the first recorded error, positioned by the parse's own cache
@@ -475,8 +512,14 @@ func c05ParsePipeline(c *Ctx) {
 	// recover installed
 	rec := false
 	allInstrs(ppOuter, func(in ssa.Instruction) {
-		if d, ok := in.(*ssa.Defer); ok && d.Call.StaticCallee() != nil && d.Call.StaticCallee().Name() == "recover" {
-			rec = true
+		if d, ok := in.(*ssa.Defer); ok && d.Call.StaticCallee() != nil {
+			// the deferred function (method, function or literal of the package) is the one that calls recover()
+			g := d.Call.StaticCallee()
+			allInstrs(g, func(i2 ssa.Instruction) {
+				if builtinName(i2) == "recover" {
+					rec = true
+				}
+			})
 		}
 	})
 	r.Ob("PARSE-RESULT", "ParsePipeline recovers internal panics", t.Pos(pp.Pos()), rec, "defer p.recover(&err)")
@@ -485,7 +528,7 @@ func c05ParsePipeline(c *Ctx) {
 	okPos := false
 	if cv != nil {
 		allInstrs(cv, func(in ssa.Instruction) {
-			if call, ok := in.(*ssa.Call); ok && call.Call.StaticCallee() != nil && call.Call.StaticCallee().Name() == "LnCol" {
+			if call, ok := in.(*ssa.Call); ok && call.Call.StaticCallee() != nil && fnName(call.Call.StaticCallee()) == "LnCol" {
 				if strings.Contains(path(call.Call.Args[1]), "errs[0].Pos.Start") {
 					okPos = true
 				}
@@ -493,7 +536,7 @@ func c05ParsePipeline(c *Ctx) {
 		})
 	}
 	if convInline != nil {
-		if lc, ok := convInline.Call.Args[1].(*ssa.Call); ok && lc.Call.StaticCallee() != nil && lc.Call.StaticCallee().Name() == "LnCol" && strings.Contains(path(lc.Call.Args[len(lc.Call.Args)-1]), "errs[0].Pos.Start") {
+		if lc, ok := convInline.Call.Args[1].(*ssa.Call); ok && lc.Call.StaticCallee() != nil && fnName(lc.Call.StaticCallee()) == "LnCol" && strings.Contains(path(lc.Call.Args[len(lc.Call.Args)-1]), "errs[0].Pos.Start") {
 			okPos = true
 		}
 	}
@@ -805,7 +848,7 @@ func c05Lexer(c *Ctx) {
 				// a same-package helper that records the error on every path
 				if h.Pkg == lex.Pkg && len(h.Blocks) > 0 {
 					allInstrs(h, func(i3 ssa.Instruction) {
-						if c3, ok := i3.(*ssa.Call); ok && c3.Call.StaticCallee() != nil && c3.Call.StaticCallee().Name() == "addParseErr" && len(controlling(c3.Block())) == 0 {
+						if c3, ok := i3.(*ssa.Call); ok && c3.Call.StaticCallee() != nil && fnName(c3.Call.StaticCallee()) == "addParseErr" && len(controlling(c3.Block())) == 0 {
 							added = true
 						}
 					})
@@ -858,7 +901,7 @@ func c05Lexer(c *Ctx) {
 				for _, l := range naturalLoops(f) {
 					for b := range l.Blocks {
 						if iff, ok := b.Instrs[len(b.Instrs)-1].(*ssa.If); ok {
-							if cc, ok := iff.Cond.(*ssa.Call); ok && cc.Call.StaticCallee() != nil && cc.Call.StaticCallee().Name() == "isSpaceNotEOL" {
+							if cc, ok := iff.Cond.(*ssa.Call); ok && cc.Call.StaticCallee() != nil && fnName(cc.Call.StaticCallee()) == "isSpaceNotEOL" {
 								okBlank = true
 							}
 						}
